@@ -51,6 +51,8 @@ def cfgFor (emb : Option Key) (embDid : String) : Nuts.C09.Cfg :=
     didThumb := fun k => if some k = emb then embDid else "?" ++ k
     maxDepth := Nuts.Facts.C09.maxControllerDepth
     validators := Nuts.Facts.C09.networkValidators
+    vmNilJwkErr := Nuts.Facts.C09.verifyThumbprintGuardsNilJwk
+    findKeyNilJwkErr := Nuts.Facts.C09.findKeyGuardsNilJwk
     store := cfgOf (fun _ l => l) Nuts.Facts.C10.mergeSortedFields }
 
 structure St where
